@@ -13,7 +13,7 @@ RULE = ('a case = 1-2 responder stacks with 1-3 CAs each, every CA in one of the
         'operational by bypass / cannot-claim / moved after a loss, plus a requester stack with an operational CA and three without an address (never started, waiting for veto, cannot-claim after a loss); the '
         'requester sends send_request(0, pgn, destination) for requested PGNs on the boundaries of the 18-bit space (0, EE00, EA00, EEFF, FFFF, 10000, '
         '1EE00, 1FFFF, 3FFFF, each PF boundary, data page 0/1 of the requested PGN) and random ones, to every held address, the global address and '
-        'unowned addresses; in an eighth of the cases a scripted requester reacts at once, on a zero-latency bus, to the very first address claim of a CA (its two requests are handled inside the send call of that claim, when the CA has just become operational); the address-less CA requests the address-claim PGN from SA 254; a scripted node sends an ordinary request from SA 254; '
+        'unowned addresses; in an eighth of the cases a scripted requester reacts at once, on a zero-latency bus, to the very first address claim of a CA (its two requests are handled inside the send call of that claim, when the CA has just become operational); in another eighth 2-3 operational CAs on one stack get a global request, the application behind the first answers from inside its callback, and a scripted node reacts to that answer at once with a second global request that is handled while the first is still being dispatched (each CA must be told both with their own requester address and PGN); the address-less CA requests the address-claim PGN from SA 254; a scripted node sends an ordinary request from SA 254; '
         'oracle = request callbacks (1-2 subscribers per CA, plus one that was unsubscribed again) fired exactly at the operational CAs owning the destination (all for 255), once each per live subscriber, with (requester address, '
         'destination, requested PGN); a request for EE00 is answered by exactly those CAs with an address-claimed frame (PGN EE00 to 255, SA = held '
         'address, 8 NAME bytes), no callback; non-trivial = >= 1 callback and >= 1 claim answer expected; distinct = configuration')
@@ -21,7 +21,7 @@ ASSUMPTIONS = ['send_request is called with data_page=0 (the Request PG exists o
                'expected sets come from the harness\'s own record of CA states']
 MIN_OBS = {'requests_sent': {'quick': 20000, 'thorough': 400000}, 'callbacks_expected': {'quick': 10000, 'thorough': 200000},
            'claim_answers_expected': {'quick': 1500, 'thorough': 30000}, 'requests_to_unowned': {'quick': 3000, 'thorough': 60000},
-           'reactive_cases': {'quick': 60, 'thorough': 2000}}
+           'reactive_cases': {'quick': 60, 'thorough': 2000}, 'nested_cases': {'quick': 60, 'thorough': 2000}}
 
 CA_STATES = ['none', 'wait_veto', 'normal', 'bypass', 'cannot', 'moved']
 BOUNDARY_PGNS = [0, 1, 0xFF, 0x100, 0xEA00, 0xEAFF, 0xEE00, 0xEEFF, 0xEE01, 0xEF00, 0xF000, 0xFECA, 0xFFFF, 0x10000, 0x1EE00, 0x1EA00, 0x1F000, 0x1FFFF,
